@@ -77,6 +77,7 @@ def corpus():
     items.extend(rerun_twins(items))
     items.extend(free_format(items))
     items.extend(without_a_option(items))
+    items.extend(other_tails(items))
     _STATE['corpus'] = items
     _STATE['by_name'] = {it['name']: i for i, it in enumerate(items)}
     return items
@@ -165,6 +166,44 @@ def rerun_twins(items):
                 'twin_of': item['name'], 'rerun': True}
         out.append(twin)
         item['twin'] = twin['name']
+    return out
+
+
+def other_tails(items):
+    '''Two more things a real job may print that no example happens to show:
+    a final "simulation time" that differs from the time of the last edition
+    (the job went on for a second after the edition), and characters outside
+    ASCII far from the top of the file (a comment of the data file, a path).'''
+    import re
+    out = []
+    trailing = re.compile(rb'(simulation time \(s\): )(\d+)')
+    for item in items:
+        if item.get('path') is None or 'failure' in item['base']:
+            continue
+        data = item['data']
+        hits = list(trailing.finditer(data))
+        if hits and len([o for o in out if 'later-end' in o['name']]) < 4:
+            last = hits[-1]
+            new = str(int(last.group(2)) + 1).encode()
+            out.append({'name': 'later-end/' + item['base'], 'path': None,
+                        'base': 'le-' + item['base'],
+                        'data': data[:last.start(2)] + new +
+                        data[last.end(2):],
+                        'focus': [max(0, last.start() - 80),
+                                  last.end() + 4],
+                        'derived': True})
+        where = data.find(b'\n', 6000)
+        first = data.find(b'RESULTS ARE GIVEN')
+        if 0 < where < first and \
+                len([o for o in out if 'non-ascii' in o['name']]) < 3:
+            comment = ' // géométrie : température ± 5 °C, maillage n°2\n' \
+                .encode('utf-8')
+            out.append({'name': 'non-ascii/' + item['base'], 'path': None,
+                        'base': 'na-' + item['base'],
+                        'data': data[:where + 1] + comment +
+                        data[where + 1:],
+                        'focus': [where, where + len(comment) + 2],
+                        'derived': True})
     return out
 
 
